@@ -4,11 +4,12 @@
 #       specification (C11If);
 #   (2) macro expansion: seeded macro sets + invocation texts, token stream of `c2m -E` vs `gcc -E -P`
 #       (and vs the extracted PpExpand model when available).
-import os, sys, re, json, shutil, tempfile
+import os, sys, re, json, shutil, tempfile, concurrent.futures
 import vlib
 sys.path.insert(0, os.path.join(vlib.VERIF, 'tools'))
 import gen_c09_if as G
 import gen_c09_macro as M
+import gen_c09_deco as D
 import hashlib
 import tr_c07_limits
 
@@ -245,6 +246,9 @@ def pp_outputs(c2m, text, d, name):
     """token lists per tool (after the C09_START marker handling is done by the caller)"""
     p = os.path.join(d, name)
     open(p, 'w').write(text)
+    inc = os.path.join(d, D.INC_NAME)
+    if not os.path.exists(inc):
+        open(inc, 'w').write(D.INC_TEXT)
     outs = {}
     for tool, cmd in (('c2m', [c2m, '-E']), ('gcc', ['gcc', '-E', '-P', '-w', '-std=c11']),
                       ('clang', ['clang', '-E', '-P', '-w', '-std=c11'])):
@@ -287,6 +291,14 @@ def case_file(cases):
     return ''.join(s)
 
 
+def one_by_one(c2m, cases, d, tag):
+    res = {}
+    with concurrent.futures.ThreadPoolExecutor(max_workers=4) as ex:
+        for r in ex.map(lambda kc: compare_cases(c2m, [kc[1]], d, '%s_%d' % (tag, kc[0])), enumerate(cases)):
+            res.update(r)
+    return res
+
+
 def compare_cases(c2m, cases, d, tag):
     """cases: [(index, text)] -> {index: ('ok'|'spacing'|'unspecified'|'diff', c2m tokens, gcc tokens)}"""
     outs = pp_outputs(c2m, case_file(cases), d, tag + '.c')
@@ -297,9 +309,7 @@ def compare_cases(c2m, cases, d, tag):
         # a reference tool rejects something or lost the marker structure: evaluate one by one
         if len(cases) == 1:
             return {cases[0][0]: ('unspecified', [], [])}
-        for c in cases:
-            res.update(compare_cases(c2m, [c], d, tag))
-        return res
+        return one_by_one(c2m, cases, d, tag)
     if split['c2m'] is None or sorted(split['c2m']) != sorted(want) or outs['c2m'][0] != 0:
         # (a text both reference preprocessors accept must be accepted by c2m too: exit status 0)
         if len(cases) == 1:
@@ -309,9 +319,7 @@ def compare_cases(c2m, cases, d, tag):
             if outs['c2m'][0] != 0:
                 toks = toks + ['<c2m -E exit status %d: %s>' % (outs['c2m'][0], outs['c2m'][2].strip().split('\n')[0][:120])]
             return {cases[0][0]: ('diff', toks, split['gcc'][cases[0][0]])}
-        for c in cases:
-            res.update(compare_cases(c2m, [c], d, tag))
-        return res
+        return one_by_one(c2m, cases, d, tag)
     for i in want:
         g, cl, c = split['gcc'][i], split['clang'][i], split['c2m'][i]
         if g != cl:
@@ -329,6 +337,8 @@ def shrink_pp_case(c2m, text, d):
     lines = text.split('\n')
 
     def fails(sub):
+        if sub and sub[-1].endswith('\\'):
+            return False        # a file ending in backslash-new-line is not a C source file (5.1.1.2p2), c2m crashes on it
         r = compare_cases(c2m, [(0, '\n'.join(sub) + '\n')], d, 'shr')
         return r[0][0] == 'diff'
     if not fails(lines):
@@ -381,6 +391,39 @@ def run_expand(chk, c2m, model_fn, d, quick):
         feats[idx] = ['cond'] + sorted(fs)
         queries[idx] = (M.cond_query(tree), 'cond', (names, px))
         idx += 1
+    # decoration layer (round 3): the same kinds of input -- macro sets + uses, conditional structures, #if expressions,
+    # #include, the corpus -- with comments (one line, several lines, //), other white space and backslash-new-line
+    # splices put in at token boundaries / any character position (translation phases 2-3 make them invisible)
+    ndeco = 520 if quick else 8000
+    corpus_texts = [t for _, t in cases[:len([f for f in feats.values() if f[0].startswith('corpus:')])]]
+    for k in range(ndeco):
+        rng = chk.rng('deco%d' % k)
+        w = rng.random()
+        names = ()
+        if w < 0.5:
+            base, fs = M.gen_macro_case(rng, idx)
+            names = sorted(set(re.findall(r'\bc%d_\w+' % idx, base)))
+            src = 'macro'
+        elif w < 0.7:
+            tree, nm, px, fs = M.gen_cond_tree(rng, idx)
+            base, names, src = M.cond_text(tree, nm, px), nm, 'cond'
+        elif w < 0.85:
+            e = G.render(G.gen_expr(rng, rng.choice([1, 2, 2, 3])))
+            base = '#if %s\nd%d_T ;\n#else\nd%d_F ;\n#endif\n' % (e, idx, idx)
+            fs, src = [], 'if-expression'
+        elif w < 0.95 or not corpus_texts:
+            base, fs = D.gen_include_case(rng, idx)
+            src = 'include'
+        else:
+            base, fs, src = rng.choice(corpus_texts), [], 'corpus'
+        text, dfs = D.decorate(rng, base, names)
+        cases.append((idx, text))
+        if src == 'macro':
+            q = M.model_query(base)
+            if q is not None:
+                queries[idx] = (q, 'fn-undecorated', None)   # only to know whether c2mir's code rejects the text
+        feats[idx] = ['deco:' + src] + ['deco-of-' + src] + dfs
+        idx += 1
     texts = dict(cases)
     RAW.clear()
     qi = sorted(queries)
@@ -415,6 +458,8 @@ def run_expand(chk, c2m, model_fn, d, quick):
         # the Coq models against c2m -E, token for token (up to c2m's unspaced printing of adjacent tokens)
         if i in answers:
             q, mk, aux = queries[i]
+            if mk == 'fn-undecorated':
+                continue
             if mk == 'fn':
                 want = M.model_tokens(answers[i])
                 tag = 'fn-model:' + (answers[i].split()[0] if want is None else 'defined')
